@@ -60,8 +60,13 @@ Roots == { Obj(<<P(KQuote, One)>>, <<>>), Obj(<<P(KCtl, One)>>, <<>>), Obj(<<P(K
            Ref(<<"@I", "@K">>, <<R("type", IdV("mixed"))>>), Ref(<<"@I", "@K">>, <<>>), Obj(<<P(Ka, Ref(<<"@K", "@I">>, <<R("type", IdV("mixed")), OptR>>))>>, <<>>),
            Arr(<<>>, <<>>), Obj(<<>>, <<>>), Arr(<<Arr(<<>>, <<>>), Obj(<<>>, <<>>)>>, <<>>),
            Lit(StrD(<<97, 34, 92, 10, 233>>), <<>>), Lit(NumD(<<45, 48, 46, 53, 48>>), <<>>) }
+\* plain JSON nested deeper than any counter one would think of: 40 objects, 20 x (object, array)
+RECURSIVE NestO(_), NestOA(_)
+NestO(k) == IF k = 0 THEN Obj(<<P(Kx, One)>>, <<>>) ELSE Obj(<<P(Ka, NestO(k - 1))>>, <<>>)
+NestOA(k) == IF k = 0 THEN One ELSE Obj(<<P(Ka, Arr(<<NestOA(k - 1)>>, <<>>))>>, <<>>)
+DeepRoots == {NestO(40), NestOA(20)}
 VARIABLE root
-Init == root \in Roots
+Init == root \in Roots \cup DeepRoots
 Next == UNCHANGED root
 Spec == Init /\ [][Next]_root
 Emit == PrintT("@@CASE " \o ToJson([schema |-> root, env |-> Env, opt |-> FALSE, verdicts |-> <<>>]))
